@@ -61,6 +61,8 @@ class Point(tuple[int | None, int | None]):
 
     def __neg__(self) -> Point:
         """Unary negation"""
+        if self[1] is None:
+            return self
         return self.__class__(self[0], self._curve.p() - self[1], self._curve)  # type: ignore[operator]
 
     def curve(self) -> Curve:
